@@ -587,10 +587,15 @@ def run_case(ctx, inp):
 
     # ---- implementation: both engines -------------------------------------------------------
     out = {}
+    from .c06 import memory_layout
+    klay = int(img.size) + N + inp["max_iter"]
+    res.stat("memory_" + memory_layout(img, klay)[1])
     for eng in ("python", "numba"):
         del _SPY[:]
         try:
-            r = com.refine_com_arr(raw.copy(), img.copy(), tuple(radius), coords.copy(),
+            # (fresh arrays for every engine, in the case's memory layout: C / Fortran order, views)
+            r = com.refine_com_arr(memory_layout(raw.copy(), klay)[0], memory_layout(img.copy(), klay)[0],
+                                   tuple(radius), coords.copy(),
                                    max_iterations=inp["max_iter"], engine=eng,
                                    shift_thresh=thrf, characterize=char)
         except Exception as e:  # valid input: mask inside, non-zero brightness
